@@ -144,15 +144,17 @@ InsertS(d, p, b) ==
     /\ UNCHANGED root
 
 \* InstanceBuilder::with_referent lets the caller choose the referent of a node.  A referent the DOM already
-\* answers for cannot be inserted a second time: the call panics at that node (documented since the "fix:" commit
-\* for the silent replacement it used to perform).  The nodes before node k in the builder's breadth-first order
-\* are in place by then - a partial, well-formed insertion; for k = 1 nothing has changed.
+\* answers for cannot be inserted a second time: the call panics (documented since the "fix:" commit for the silent
+\* replacement it used to perform).  What the documentation leaves open is how much of the builder is in place by
+\* then: the code inserts node by node, so the j = k - 1 nodes before node k in breadth-first order are there; an
+\* implementation that validated the whole builder first would leave none (j = 0).  Either way the result is the
+\* insertion of a prefix of the builder - a well-formed forest.
 InsertCollideS(d, p, b, k, c) ==
     /\ BuilderOK(b) /\ k \in 1..Len(b)
     /\ c \in Refs /\ owner[c] = d
     /\ root[d] # Null
     /\ p = Null \/ (p \in Refs /\ owner[p] = d)
-    /\ IF k = 1 THEN UNCHANGED svars ELSE InsertS(d, p, SubSeq(b, 1, k - 1))
+    /\ \E j \in 0..(k - 1) : IF j = 0 THEN UNCHANGED svars ELSE InsertS(d, p, SubSeq(b, 1, j))
 
 InsertU(d, p, b) ==
     LET n == Len(b)
@@ -185,7 +187,8 @@ NewS(d, b) ==
        /\ nextRef' = nextRef + n
 
 NewU(d, b) == InsertU(d, Null, b)
-InsertCollideU(d, p, b, k) == IF k = 1 THEN UidUnchanged ELSE InsertU(d, p, SubSeq(b, 1, k - 1))
+\* (the UniqueId part follows the prefix that was inserted: nextRef' - nextRef nodes)
+InsertCollideU(d, p, b, k) == IF nextRef' = nextRef THEN UidUnchanged ELSE InsertU(d, p, SubSeq(b, 1, nextRef' - nextRef))
 
 \* WeakDom::default(): an empty DOM without a root.  root_ref() answers Ref::none() for ever; everything put into it
 \* later (insert under Ref::none(), clone_into_external, transfer under one of those) is an ordinary orphan tree,
